@@ -484,4 +484,300 @@ theorem tokensAux_fuel (n : Nat) : ∀ (f : Nat) (cs : List Char), cs.length + 1
         have := (specNext_lt n cs t r hs).1
         rw [ih r (by omega)]
 
+/-! ## a line feed appended to the text (`newLexer` does that) changes no token -/
+
+/-- what is left after skipping, when a line feed is appended to the text -/
+def withNL (r : List Char) : List Char := if r = [] then [] else r ++ ['\n']
+
+theorem findSS_nl : ∀ (n : Nat) (cs : List Char), cs.length ≤ n →
+    findSS (cs ++ ['\n']) = (findSS cs).map fun p => (p.1, p.2 ++ ['\n']) := by
+  intro n
+  induction n with
+  | zero =>
+    intro cs hn
+    have : cs = [] := List.eq_nil_of_length_eq_zero (by omega)
+    subst this; simp [findSS]
+  | succ n ih =>
+    intro cs hn
+    cases cs with
+    | nil => simp [findSS]
+    | cons c cs =>
+      cases cs with
+      | nil =>
+        simp only [List.cons_append, List.nil_append]
+        rw [findSS]
+        simp [findSS]
+      | cons d r =>
+        simp only [List.cons_append]
+        rw [findSS, findSS]
+        split
+        · simp
+        · have := ih (d :: r) (by simp only [List.length_cons] at hn ⊢; omega)
+          simp only [List.cons_append] at this
+          rw [this]
+          cases findSS (d :: r) <;> simp
+
+theorem skipGround_nl : ∀ (n : Nat) (cs : List Char), cs.length ≤ n →
+    skipGround (cs ++ ['\n']) = (skipGround cs).map withNL := by
+  intro n
+  induction n using Nat.strongRecOn with
+  | _ n ih =>
+    intro cs hn
+    cases cs with
+    | nil =>
+      simp only [List.nil_append]
+      rw [skipGround, skipGround, skipGround]
+      simp [isSpace, withNL]
+    | cons c cs' =>
+      simp only [List.length_cons] at hn
+      simp only [List.cons_append]
+      by_cases hsp : isSpace c = true
+      · rw [skipGround, if_pos hsp]
+        conv => rhs; rw [skipGround, if_pos hsp]
+        exact ih cs'.length (by omega) cs' (Nat.le_refl _)
+      · have hsp' : isSpace c = false := by simpa using hsp
+        by_cases hc : c = '/'
+        · subst hc
+          rw [skipGround_slash, skipGround_slash]
+          cases cs' with
+          | nil =>
+            simp only [List.nil_append]
+            rw [afterSlash_token ['\n'] (fun c r h => by
+              simp only [List.cons.injEq] at h; rw [← h.1]; exact ⟨by decide, by decide⟩)]
+            rw [afterSlash]
+            simp [withNL]
+          | cons d r1 =>
+            simp only [List.cons_append]
+            by_cases hd1 : d = '/'
+            · subst hd1
+              rw [afterSlash_line, afterSlash_line]
+              by_cases hnl : '\n' ∈ r1
+              · obtain ⟨s0, r2, hr1, hs0⟩ := split_first_nl r1 hnl
+                rw [hr1, skipLine_found s0 r2 hs0]
+                have : s0 ++ '\n' :: r2 ++ ['\n'] = s0 ++ '\n' :: (r2 ++ ['\n']) := by simp
+                rw [this, skipLine_found s0 (r2 ++ ['\n']) hs0]
+                exact ih r2.length (by
+                  rw [hr1] at hn; simp only [List.length_cons, List.length_append] at hn; omega) r2 (Nat.le_refl _)
+              · rw [skipLine_none r1 hnl, skipLine_found r1 [] hnl]
+                rw [skipGround]
+                simp [withNL]
+            · by_cases hd2 : d = '*'
+              · subst hd2
+                rw [afterSlash_block, afterSlash_block]
+                rw [(skipBlock_blockEnd _).1, (skipBlock_blockEnd _).1]
+                unfold blockEnd
+                rw [findSS_nl r1.length r1 (Nat.le_refl _)]
+                cases hf : findSS r1 with
+                | none => rfl
+                | some p =>
+                  simp only [Option.map_some]
+                  have hsp2 := findSS_split r1.length r1 (Nat.le_refl _) p.1 p.2 (by rw [hf])
+                  exact ih p.2.length (by
+                    rw [hsp2] at hn; simp only [List.length_cons, List.length_append] at hn; omega) p.2 (Nat.le_refl _)
+              · rw [afterSlash_token (d :: r1) (fun c' r' he => by
+                  simp only [List.cons.injEq] at he; rw [← he.1]; exact ⟨hd1, hd2⟩)]
+                rw [afterSlash_token (d :: (r1 ++ ['\n'])) (fun c' r' he => by
+                  simp only [List.cons.injEq] at he; rw [← he.1]; exact ⟨hd1, hd2⟩)]
+                simp [withNL]
+        · rw [skipGround_token c (cs' ++ ['\n']) hsp' hc, skipGround_token c cs' hsp' hc]
+          simp [withNL]
+
+theorem scanSq_nl : ∀ (cs : List Char),
+    scanSq (cs ++ ['\n']) = (scanSq cs).map fun p => (p.1, p.2 ++ ['\n']) := by
+  intro cs
+  induction cs with
+  | nil => simp [scanSq]
+  | cons c cs ih =>
+    simp only [List.cons_append]
+    rw [scanSq, scanSq]
+    split
+    · simp
+    · rw [ih]; cases scanSq cs <;> simp
+
+theorem scanDq_nl : ∀ (n : Nat) (cs : List Char), cs.length ≤ n →
+    scanDq (cs ++ ['\n']) = (scanDq cs).map fun p => (p.1, p.2 ++ ['\n']) := by
+  intro n
+  induction n with
+  | zero =>
+    intro cs hn
+    have : cs = [] := List.eq_nil_of_length_eq_zero (by omega)
+    subst this; simp [scanDq]
+  | succ n ih =>
+    intro cs hn
+    cases cs with
+    | nil => simp [scanDq]
+    | cons c cs =>
+      simp only [List.cons_append]
+      by_cases hq : c = '"'
+      · subst hq; unfold scanDq; simp
+      · by_cases hb : c = '\\'
+        · subst hb
+          cases cs with
+          | nil => simp [scanDq]
+          | cons e r0 =>
+            simp only [List.cons_append]
+            have := ih r0 (by simp only [List.length_cons] at hn; omega)
+            conv => lhs; unfold scanDq
+            conv => rhs; unfold scanDq
+            simp only [show ('\\' : Char) ≠ '"' by decide, if_false, if_true]
+            rw [this]
+            cases scanDq r0 <;> simp
+        · have := ih cs (by simp only [List.length_cons] at hn; omega)
+          conv => lhs; unfold scanDq
+          conv => rhs; unfold scanDq
+          simp only [hq, hb, if_false]
+          rw [this]
+          cases scanDq cs <;> simp
+
+theorem takeWhile_snoc_neg {α : Type} (p : α → Bool) (x : α) (hx : p x = false) : ∀ (l : List α),
+    (l ++ [x]).takeWhile p = l.takeWhile p ∧ (l ++ [x]).dropWhile p = l.dropWhile p ++ [x] := by
+  intro l
+  induction l with
+  | nil => simp [List.takeWhile_cons, List.dropWhile_cons, hx]
+  | cons a l ih =>
+    simp only [List.cons_append, List.takeWhile_cons, List.dropWhile_cons]
+    split
+    · exact ⟨by rw [ih.1], ih.2⟩
+    · exact ⟨rfl, rfl⟩
+
+theorem specNext_nl (n : Nat) (cs : List Char) :
+    specNext (n + 1) (cs ++ ['\n']) =
+      match specNext n cs with
+      | none => none
+      | some none => some none
+      | some (some (t, rest)) => some (some (t, rest ++ ['\n'])) := by
+  unfold specNext
+  rw [skipGround_nl cs.length cs (Nat.le_refl _)]
+  cases hg : skipGround cs with
+  | none => rfl
+  | some l =>
+    obtain ⟨_, hhead⟩ := skipGround_le cs.length cs (Nat.le_refl _) l hg
+    cases l with
+    | nil => simp [withNL, specNextG]
+    | cons c r =>
+      have hcs := hhead c r rfl
+      have hoff : n + 1 - ((r ++ ['\n']).length + 1) = n - (r.length + 1) := by
+        simp only [List.length_append, List.length_cons, List.length_nil]; omega
+      simp only [Option.map_some, withNL, reduceCtorEq, if_false, List.cons_append]
+      unfold specNextG
+      simp only [hoff]
+      split
+      · rfl
+      · split
+        · rfl
+        · split
+          · rfl
+          · split
+            · rw [scanSq_nl]; cases scanSq r <;> rfl
+            · split
+              · rw [scanDq_nl r.length r (Nat.le_refl _)]; cases scanDq r <;> rfl
+              · have h := takeWhile_snoc_neg (fun x => !isDelim x) '\n' (by decide) (c :: r)
+                simp only [List.cons_append] at h
+                rw [h.1, h.2]
+
+theorem tokensAux_nl (n : Nat) : ∀ (f : Nat) (cs : List Char),
+    tokensAux (n + 1) f (cs ++ ['\n']) = tokensAux n f cs := by
+  intro f
+  induction f with
+  | zero => intro cs; simp [tokensAux]
+  | succ f ih =>
+    intro cs
+    rw [tokensAux_succ, tokensAux_succ, specNext_nl]
+    cases specNext n cs with
+    | none => rfl
+    | some o =>
+      cases o with
+      | none => rfl
+      | some p =>
+        obtain ⟨t, r⟩ := p
+        simp only
+        rw [ih r]
+
+/-- the tokens of the text with a line feed appended are the tokens of the text -/
+theorem tokenize_nl (text : List Char) : tokenize (text ++ ['\n']) = tokenize text := by
+  unfold tokenize
+  rw [List.length_append, List.length_cons, List.length_nil, Nat.zero_add, tokensAux_nl]
+  exact tokensAux_fuel text.length (text.length + 1) text (Nat.le_refl _)
+
+/-! ## positions depend on the text before the offset only -/
+
+theorem tokensAux_off (n : Nat) : ∀ (f : Nat) (cs : List Char) (toks : List PTok),
+    tokensAux n f cs = some toks → ∀ t ∈ toks, t.off ≤ n := by
+  intro f
+  induction f with
+  | zero => intro cs toks h; simp [tokensAux] at h
+  | succ f ih =>
+    intro cs toks h
+    rw [tokensAux_succ] at h
+    cases hs : specNext n cs with
+    | none => rw [hs] at h; cases h
+    | some o =>
+      cases o with
+      | none => rw [hs] at h; injection h with h; rw [← h]; intro t ht; cases ht
+      | some p =>
+        obtain ⟨t0, r⟩ := p
+        rw [hs] at h
+        simp only at h
+        cases hr : tokensAux n f r with
+        | none => rw [hr] at h; cases h
+        | some ts =>
+          rw [hr] at h
+          simp only [Option.map_some, Option.some.injEq] at h
+          rw [← h]
+          intro t ht
+          simp only [List.mem_cons] at ht
+          rcases ht with ht | ht
+          · rw [ht]; exact (specNext_lt n cs t0 r hs).2
+          · exact ih r ts hr t ht
+
+section congr
+variable (text1 text2 : List Char) (N : Nat) (hsame : ∀ off, off ≤ N → text1.take off = text2.take off)
+include hsame
+
+theorem lineOf_congr (off : Nat) (h : off ≤ N) : lineOf text1 off = lineOf text2 off := by
+  unfold lineOf; rw [hsame off h]
+
+theorem colOf_congr (off : Nat) (h : off ≤ N) : colOf text1 off = colOf text2 off := by
+  unfold colOf; rw [hsame off h]
+
+theorem quoteCol_congr (off : Nat) (h : off ≤ N) : quoteCol text1 off = quoteCol text2 off := by
+  unfold quoteCol; rw [hsame off h]
+
+theorem piece_congr (b : Bool) (t : PTok) (h : t.off ≤ N) : piece text1 b t = piece text2 b t := by
+  obtain ⟨tok, off⟩ := t
+  cases tok <;> simp only [piece]
+  rw [quoteCol_congr text1 text2 N hsame off h]
+
+theorem concatTail_congr (b : Bool) : ∀ (n : Nat) (ts : List PTok), ts.length ≤ n → (∀ t ∈ ts, t.off ≤ N) →
+    concatTail text1 b ts = concatTail text2 b ts := by
+  intro n
+  induction n with
+  | zero =>
+    intro ts hn _
+    have : ts = [] := List.eq_nil_of_length_eq_zero (by omega)
+    subst this; simp [concatTail]
+  | succ n ih =>
+    intro ts hn hoff
+    cases ts with
+    | nil => simp [concatTail]
+    | cons p ts1 =>
+      cases ts1 with
+      | nil => simp [concatTail]
+      | cons q ts2 =>
+        simp only [concatTail]
+        rw [piece_congr text1 text2 N hsame b q (hoff q (by simp)),
+          ih ts2 (by simp only [List.length_cons] at hn; omega) (fun t ht => hoff t (by simp [ht]))]
+
+theorem argument_congr (b : Bool) (ts : List PTok) (hoff : ∀ t ∈ ts, t.off ≤ N) :
+    argument text1 b ts = argument text2 b ts := by
+  cases ts with
+  | nil => simp [argument]
+  | cons t ts' =>
+    have h1 := piece_congr text1 text2 N hsame b t (hoff t (by simp))
+    have h2 := concatTail_congr text1 text2 N hsame b ts'.length ts' (Nat.le_refl _)
+      (fun x hx => hoff x (by simp [hx]))
+    cases hk : t.tok <;> simp only [argument, hk, h1, h2]
+
+end congr
+
 end Goyang.Lemmas.Scan
